@@ -213,6 +213,19 @@ func TestVerif_C01(t *testing.T) {
 			}
 		}
 	}
+	// every LZF back-reference relation as key name and as value (the parser decompresses key names)
+	for _, ls := range rdbcat.LZFFamily() {
+		if mine() {
+			it := rdbgen.Key(ls, rdbgen.StringVal(ls), rdbgen.KeyOpts{})
+			for _, mode := range []string{"whole", "byte"} {
+				c := c01Case{Sub: "lzf", Version: 9, Level: -1, Mode: mode, Names: []string{it.Name + ":" + ls.Form}}
+				o := c01Run(c, []rdbgen.Item{it})
+				n++
+				nontriv++
+				ev.Outcome(o)
+			}
+		}
+	}
 	// length 2 over the full alphabet (thorough) / full x reduced both ways (quick)
 	full := len(sigma[1])
 	if ev.Thorough() {
